@@ -6,7 +6,7 @@
 //! Iterable grammars (`IT`) cannot be boxed (`IterParser` is not object safe), so they are composed
 //! statically: a base (`IRep | ISep | IOrNot | IRepCfg`), an adaptor stack of depth 0..=2
 //! (`IEnum | IMap | IMapWith`) and the finisher are put together inside generic functions of fixed depth
-//! (`both2 -> both1 -> both0`, `iter2 -> iter1 -> iter0`, `finish`). See the section "iterables" below for
+//! (`both2 -> both1 -> iter0`, `iter2 -> iter1 -> iter0`, `finish`). See the section "iterables" below for
 //! what chumsky's API admits.
 
 use std::marker::PhantomData;
@@ -516,13 +516,13 @@ impl<'a, I: HInput<'a>, E: HErr<'a, I>> Builder<'a, I, E> {
 
     // ----- adaptor levels for iterables that are also `Parser`s of their item type -----
 
+    /// Entry level: only reached with a stack that starts (innermost) with `IMap`/`IMapWith`
+    /// (`iterable` routes un-mapped stacks to `iter2`), which keeps the number of instantiations down.
     fn both2<T: Item, X>(&self, it: X, ads: &[Ad], fin: Fin<'a, I, E>) -> Res<P<'a, I, E>>
     where
         X: Parser<'a, I, T, Ex<E>> + IterParser<'a, I, T, Ex<E>> + 'a,
     {
         match ads.split_first() {
-            None => self.finish(it, fin),
-            Some((Ad::Enum, rest)) => self.iter1(IterParser::enumerate(it), rest, fin),
             Some((Ad::Map(f), rest)) => {
                 let f = f.clone();
                 self.both1(Parser::map(it, move |x: T| ap1(&f, x.into_val())), rest, fin)
@@ -537,6 +537,8 @@ impl<'a, I: HInput<'a>, E: HErr<'a, I>> Builder<'a, I, E> {
                     fin,
                 )
             }
+            // `Enumerate` is not a `Parser`: nothing can be mapped over it
+            _ => unsupported("IMap/IMapWith above IEnum does not type-check in chumsky"),
         }
     }
 
